@@ -115,6 +115,8 @@ func NewSafeMapDataProvider[T any](m map[string]T) DataProvider {
 
 type EmptyDataProvider struct {
 	Underlying any
+	// Tag is the source specific struct tag (json, form...) used to name keys, if any
+	Tag *string
 }
 
 func (e *EmptyDataProvider) Get(key string) any {
@@ -122,7 +124,8 @@ func (e *EmptyDataProvider) Get(key string) any {
 }
 
 func (e *EmptyDataProvider) GetByField(field reflect.StructField, fallback string) (any, string) {
-	return nil, fallback
+	// the key (and therefore the issue path) follows the same tag rule as every other provider
+	return nil, GetKeyFromField(field, fallback, e.Tag)
 }
 
 func (e *EmptyDataProvider) GetNestedProvider(key string) DataProvider {
